@@ -546,21 +546,12 @@ impl Expression for ExpressionOperator {
             "ExpressionOperator::execute: <{:?}={}> {:?} <{:?}={}>",
             self.left, left_result, self.operator, self.right, right_result
         );
-        let result_data = if Arc::ptr_eq(&left_result.arc, &right_result.arc) {
-            // Same object, we have to clone the content at least for one side to avoid deadlock.
-            let left_data = left_result.lock().unwrap().clone();
-            Self::operation(
-                &left_data,
-                &self.operator,
-                right_result.lock().unwrap().deref(),
-            )
-        } else {
-            Self::operation(
-                &left_result.lock().unwrap(),
-                &self.operator,
-                right_result.lock().unwrap().deref(),
-            )
-        };
+        // The operands are copied and their locks released before the operation: they may be the same
+        // object, or one may be an element or member of the other ("a == a[0]"), whose lock the
+        // operation takes again.
+        let left_data = left_result.lock().unwrap().clone();
+        let right_data = right_result.lock().unwrap().clone();
+        let result_data = Self::operation(&left_data, &self.operator, &right_data);
         Ok(create_data_arc(result_data))
     }
 
